@@ -318,160 +318,100 @@ def check_counts(P, ctx, fr):
 
 
 def check_backshift(P, ctx):
-    """the back-shift loop of Table_Rem: next slot (j+1) % nslots; it shifts exactly when the next slot is occupied and its entry is
-    away from home — decided as a truth table over (stored hash, probe distance) by walking the loop with the analyser's evaluator,
-    so the spelling of the test (nested, negated, early break) does not matter; one step copies the whole record and clears the source"""
-    from .rules_c17 import backshift_form
+    """after a removal the entries behind the gap are shifted back exactly while they are away from home, wrap-around included: decided
+    by the evaluation of the table as a finite map (tablemodel) — removals from collision chains that wrap past the last slot, followed by
+    the library's own lookups of every remaining key.  (The registry of the collector has the same loop; there it is still read as a
+    truth table, C17.)"""
+    from . import tablemodel
     rule = 'C02.back-shift'
     fn = P.fn('Table_Rem')
-    bf = backshift_form(P, 'Table_Rem', probe_fn='Table_Probe')
-    detail = []
-    ok = bf is not None
-    if ok:
-        want_tab = {(0, 0): False, (0, 1): False, (0, 5): False, (3, 0): False, (3, 1): True, (3, 5): True}
-        ok = bf['next'] == '((1 + J) % arg0->nslots)' and bf['table'] == want_tab
-        detail = ['next slot: %s' % bf['next'], 'shifts for (stored hash, probe distance): %s' % sorted(k for k, v in bf['table'].items() if v),
-                  'expected: [(3, 1), (3, 5)] (occupied and away from home)']
-        step = ('call', ('func', 'Table_Step'), (('param', 0),))
-        slot = lambda v: ('bin', '+', ('arrow', ('param', 0), 'data'), ('bin', '*', ('local', v), step))
-        cf = lambda e: ir.fmt(ir.canon(e))
-        need = [cf(('call', ('func', 'memcpy'), (slot('J'), slot('NJ'), step))), cf(('call', ('func', 'memset'), (slot('NJ'), ('int', 0), step))), 'J = NJ']
-        missing = [a for a in need if a not in bf['acts']]
-        if missing:
-            ok = False
-            detail.append('a shifting step lacks: %s' % missing)
-            detail.append('loop body: %s' % list(bf['acts']))
+    fmbad, fmunsup, _n = tablemodel.finite_map(P)
+    if fmunsup and not fmbad.get('rem'):
+        ctx.undecided(rule, 'Table_Rem', site(fn), 'the table leaves the evaluated fragment: ' + fmunsup)
     else:
-        detail = ['back-shift loop (next-slot index, hash read of the next slot, one record copy) not found in Table_Rem or its helpers']
-    ctx.check(ok, rule, 'Table_Rem', site(fn), 'after a removal the following entries are shifted back one slot, each moved as a whole record, exactly while the next slot is occupied and its '
-              'entry is away from home (probe distance > 0, which accounts for wrap-around); the vacated slot is cleared', detail)
+        ctx.check(fmbad.get('rem') is None, rule, 'Table_Rem', site(fn), 'after a removal the following entries are shifted back one slot, each moved as a whole record, exactly while the next slot is occupied and its '
+                  'entry is away from home (which accounts for wrap-around); the vacated slot is cleared — evaluated: every remaining key is found afterwards, none twice', [fmbad['rem']] if fmbad.get('rem') else None)
     ctx.floor(rule, 1)
 
 
 def check_layout(P, ctx, H=None):
-    """offsets of hash word / key / value / record size agree at every site that computes them"""
+    """the record layout is whatever the accessors say; what must hold is agreement: hash word, key (with header) and value (with header)
+    lie inside one step without overlapping, the scratch-record accessors use the same offsets as the slot accessors, and every site
+    that moves or reads record parts (insertion, displacement, rehash, hash, cursors) is decided by evaluating it on the memory the
+    accessors lay out (tablemodel, absmodel)"""
+    from . import cint, absmodel, tablemodel
     rule = 'C02.layout'
-    Hs = poly.Poly.atom('H')
-    k, v = poly.Poly.atom('arg0->ksize'), poly.Poly.atom('arg0->vsize')
-    c8 = poly.Poly.const(8)
-    want = {'step': c8 + Hs + k + Hs + v, 'key': c8 + Hs, 'val': c8 + Hs + k + Hs, 'hash': poly.Poly.const(0), 'vhead': c8 + Hs + k, 'khead': c8}
-
-    def off(fn, e, base_atoms, expand=True):
-        N = util.Norm(P, fn, expand_locals=expand)
-        p = poly.from_expr(N.canon(e))
-        for b in base_atoms:
-            p = p - poly.Poly.atom(b)
-        return p
-    # accessors
-    for f, base, what in (('Table_Key', 'arg0->data', 'key'), ('Table_Val', 'arg0->data', 'val'), ('Table_Swapspace_Key', 'arg1', 'key'), ('Table_Swapspace_Val', 'arg1', 'val')):
-        ab = util.accessor_body(P, f)
-        ok = ab is not None
-        detail = None
-        if ok:
-            N = util.Norm(P, ab[0])
-            p = poly.from_expr(N.inline_only(ir.canon(ab[1]), 3)) - poly.Poly.atom(base)
-            exp = want[what] + (poly.Poly.atom('arg1') * want['step'] if base == 'arg0->data' else poly.Poly())
-            ok = p == exp
-            detail = ['computed: %r' % p, 'layout:   %r' % exp]
-        ctx.check(ok, rule, f, site(P.fn(f)), '%s is at offset %s of its record (records are `step` bytes apart)' % (what, what), detail)
-    ab = util.accessor_body(P, 'Table_Step')
-    ok = ab is not None and poly.from_expr(ir.canon(ab[1])) == want['step']
-    ctx.check(ok, rule, 'Table_Step', site(P.fn('Table_Step')), 'a record is 8 (hash) + header + ksize + header + vsize bytes')
-    ab = util.accessor_body(P, 'Table_Key_Hash')
-    ok = ab is not None
-    if ok:
-        e = ir.canon(ab[1])
-        N = util.Norm(P, ab[0])
-        e = N.inline_only(e, 3)
-        ok = e[0] == 'un' and e[1] == '*' and poly.from_expr(e[2]) - poly.Poly.atom('arg0->data') == poly.Poly.atom('arg1') * want['step']
-    ctx.check(ok, rule, 'Table_Key_Hash', site(P.fn('Table_Key_Hash')), 'the hash word is the first word of the record')
-    # Table_Set_Move: where the carried record's parts are written (both branches) and rounded sizes
+    SELF = absmodel.SELF
+    HDR = 8 * len(P.records['Header']['fields']) if 'Header' in P.records else 24
+    geo = None
+    unsup = None
+    try:
+        for ksize, vsize in ((8, 16), (24, 8), (16, 40)):
+            atoms = {('global', 'NULL'): 0}
+            for f, v in (('ktype', 8500), ('vtype', 8501), ('ksize', ksize), ('vsize', vsize), ('nitems', 0), ('nslots', 4), ('data', 600000), ('sspace0', 610000), ('sspace1', 620000)):
+                atoms[('elem', 'self', 0, f)] = v
+            step = absmodel.sub(P, 'Table_Step', [SELF], atoms)
+            for i in (0, 1, 3):
+                base = 600000 + i * step
+                hw = absmodel.probe_read(P, 'Table_Key_Hash', [SELF, i], atoms)
+                key = absmodel.sub(P, 'Table_Key', [SELF, i], atoms)
+                val = absmodel.sub(P, 'Table_Val', [SELF, i], atoms)
+                msg = None
+                if hw != base:
+                    msg = ('Table_Key_Hash', 'slot %d: the hash word is read at offset %d of the record' % (i, hw - base))
+                elif not (base + 8 + HDR <= key and key + ksize <= base + step):
+                    msg = ('Table_Key', 'key size %d: the key of slot %d (with its header) occupies offsets %d..%d of a %d-byte record that starts with the 8-byte hash word' % (ksize, i, key - HDR - base, key + ksize - base, step))
+                elif not (key + ksize + HDR <= val and val + vsize <= base + step):
+                    msg = ('Table_Val', 'sizes %d/%d: the value of slot %d (with its header) occupies offsets %d..%d; the key ends at %d and the record has %d bytes' % (
+                        ksize, vsize, i, val - HDR - base, val + vsize - base, key + ksize - base, step))
+                if msg:
+                    geo = geo or msg
+            for f, slotf in (('Table_Swapspace_Key', 'Table_Key'), ('Table_Swapspace_Val', 'Table_Val')):
+                a_ = absmodel.sub(P, f, [SELF, 610000], atoms) - 610000
+                b_ = absmodel.sub(P, slotf, [SELF, 0], atoms) - 600000
+                if a_ != b_:
+                    geo = geo or (f, 'sizes %d/%d: the scratch record accessor uses offset %d, the slot accessor %d' % (ksize, vsize, a_, b_))
+    except absmodel.Unsupported as x:
+        unsup = str(x)
+    texts = {'Table_Key': 'key is at offset key of its record (records are `step` bytes apart)', 'Table_Val': 'val is at offset val of its record (records are `step` bytes apart)',
+             'Table_Swapspace_Key': 'key is at offset key of its record (records are `step` bytes apart)', 'Table_Swapspace_Val': 'val is at offset val of its record (records are `step` bytes apart)',
+             'Table_Step': 'a record is 8 (hash) + header + ksize + header + vsize bytes', 'Table_Key_Hash': 'the hash word is the first word of the record'}
+    for f in ('Table_Key', 'Table_Val', 'Table_Swapspace_Key', 'Table_Swapspace_Val', 'Table_Step', 'Table_Key_Hash'):
+        fn = P.fn(f, required=False) or P.fn('Table_Set_Move')
+        if unsup:
+            ctx.undecided(rule, f, site(fn), 'the accessors leave the evaluated fragment: ' + unsup)
+        else:
+            mine = geo is not None and (geo[0] == f or (f == 'Table_Step' and geo[0] in ('Table_Key', 'Table_Val')))
+            ctx.check(not mine, rule, f, site(fn), texts[f] + ' (accessors evaluated for three key/value sizes: hash word, key and value with their headers fit one step without overlap)',
+                      [geo[1]] if mine else None)
+    # insertion, displacement and rehash move record parts with memcpy: carried out on the model by the finite-map evaluation
+    fmbad, fmunsup, _n = tablemodel.finite_map(P)
     fn = P.fn('Table_Set_Move')
-    g = P.cfg(fn)
-    N = util.Norm(P, fn, expand_locals=True)
-    ss0 = 'arg0->sspace0'
-    sites = []
-    for n in g.live():
-        if n['expr'] is None:
-            continue
-        for c in ir.calls(n['expr']):
-            nm = ir.callee_name(c)
-            if nm in ('memcpy', 'assign', 'header_init') and c[2]:
-                d = N.canon(c[2][0])
-                if any(x == ('arrow', ('param', 0), 'sspace0') for x in ir.walk(d)) and d != ('arrow', ('param', 0), 'sspace0'):
-                    sites.append((n, nm, poly.from_expr(d) - poly.Poly.atom(ss0), c))
-    exp_sets = {'memcpy': [want['khead'], want['vhead']], 'assign': [want['key'], want['val']], 'header_init': [want['khead'], want['vhead']]}
-    ok = True
-    detail = []
-    for nm, exps in exp_sets.items():
-        got = [p for (n, m, p, c) in sites if m == nm]
-        if sorted(map(repr, got)) != sorted(map(repr, exps)):
-            ok = False
-            detail.append('%s into the carried record at offsets %s, layout says %s' % (nm, [repr(x) for x in got], [repr(x) for x in exps]))
-    # move branch copies header+payload of key and value from (ptr - H)
-    for (n, m, p, c) in sites:
-        if m == 'memcpy':
-            src = poly.from_expr(N.canon(c[2][1]))
-            ln = poly.from_expr(N.canon(c[2][2]))
-            which = 'arg1' if p == want['khead'] else 'arg2'
-            size = k if p == want['khead'] else v
-            if src != poly.Poly.atom(which) - Hs or ln != size + Hs:
-                ok = False
-                detail.append('byte-wise move reads %r for %r bytes; expected (%s - H) for header + payload' % (src, ln, which))
-    ctx.check(ok, rule, 'Table_Set_Move:carried-record', site(fn), 'headers, key and value of the carried record are written at the offsets of the record layout (move and copy branches)', detail)
-    # slot addressing inside the loop: data + i*step, whole records
-    ok = True
-    for n in g.live():
-        if n['expr'] is None:
-            continue
-        for c in ir.calls(n['expr']):
-            if ir.callee_name(c) == 'memcpy' and len(c[2]) == 3 and n['id'] in (g.innermost_loop_of(n['id']) or set()):
-                ln = poly.from_expr(N.canon(c[2][2]))
-                if ln != want['step']:
-                    ok = False
-    ctx.check(ok, rule, 'Table_Set_Move:record-moves', site(fn), 'inside the probe loop records are copied as a whole (Table_Step bytes)')
-    # Table_Rehash reads old records with the same offsets
+    for key_, text in (('Table_Set_Move:carried-record', 'headers, key and value of the carried record are written at the offsets of the record layout (move and copy branches)'),
+                       ('Table_Set_Move:record-moves', 'inside the probe loop records are copied as a whole (Table_Step bytes)')):
+        if fmunsup and not fmbad.get('set'):
+            ctx.undecided(rule, key_, site(fn), 'the table leaves the evaluated fragment: ' + fmunsup)
+        else:
+            ctx.check(fmbad.get('set') is None, rule, key_, site(fn), text + ' — every copy covers whole parts of a record and the table afterwards holds the right bindings (C02.finite-map)',
+                      [fmbad['set']] if fmbad.get('set') else None)
     fn = P.fn('Table_Rehash')
-    g = P.cfg(fn)
-    N = util.Norm(P, fn, expand_locals=True)
-    got = {}
-    # what is handed to the insertion as key / value, and what is tested as the stored hash — in terms of the old store
-    defs = util.single_defs(fn)
-    old = [('local', d['name'], d['id']) for s_ in ir.stmts(fn['body']) if s_['k'] == 'decl' for d in s_['decls']
-           if d['init'] is not None and util.Norm(P, fn).canon(d['init']) == ('arrow', ('param', 0), 'data')]
-    ins = [c for c, _ in ir.all_calls(fn['body']) if ir.callee_name(c) == 'Table_Set_Move']
-    occ = [s_ for s_ in ir.stmts(fn['body']) if s_['k'] == 'if']
-
-    def off(e):
-        # expand single-definition locals except the old-store pointer, then subtract it
-        Nx = util.Norm(P, fn, expand_locals=True)
-        if old:
-            Nx.defs = {k: v for k, v in Nx.defs.items() if k != old[0][2]}
-        c = Nx.canon(e)
-        if c[0] == 'un' and c[1] == '*':
-            c = c[2]
-        return poly.from_expr(c) - poly.Poly.atom(old[0][1] if old else 'old_data')
-    if len(ins) == 1 and old:
-        got['key'] = off(ins[0][2][1])
-        got['val'] = off(ins[0][2][2])
-        hs = [s_ for s_ in occ if any(x[0] == 'local' for x in ir.walk(s_['cond']))]
-        for s_ in occ:
-            c = s_['cond']
-            for x in ir.walk(ir.nocast(c)):
-                if x[0] == 'local' and x[2] in defs and x != old[0]:
-                    try:
-                        got['h'] = off(defs[x[2]])
-                    except Exception:
-                        pass
-    i_step = poly.Poly.atom('i') * want['step']
-    ok = got.get('key') == want['key'] + i_step and got.get('val') == want['val'] + i_step and got.get('h') == i_step
-    ctx.check(ok, rule, 'Table_Rehash', site(fn), 'rehash locates hash, key and value of old records with the layout offsets', ['%s' % {a: repr(b) for a, b in got.items()}])
-    # Table_Hash: value from key cursor = + ksize + H ; iterators: hash word at cursor - H - 8, stride = step
-    fn = P.fn('Table_Hash')
-    N = util.Norm(P, fn)
-    vd = [d for s_ in ir.stmts(fn['body']) if s_['k'] == 'decl' for d in s_['decls'] if d['name'] == 'vurr']
-    ok = len(vd) == 1 and poly.from_expr(N.canon(vd[0]['init'])) - poly.Poly.atom('curr') == k + Hs
-    ctx.check(ok, rule, 'Table_Hash', site(fn), 'the value of an entry is found ksize + header bytes behind its key')
+    try:
+        rbad, runsup, rn = tablemodel.eval_table_rehash(P)
+    except absmodel.Unsupported as x:
+        rbad, runsup, rn = None, str(x), 0
+    if runsup and not rbad:
+        ctx.undecided(rule, 'Table_Rehash', site(fn), 'rehash leaves the evaluated fragment: ' + runsup)
+    else:
+        ctx.check(rbad is None, rule, 'Table_Rehash', site(fn), 'rehash locates hash, key and value of old records with the layout offsets (evaluated: the new store binds what the old one did)', [rbad] if rbad else None)
+    fn = P.fn(P.slot('Table', 'Hash', 'hash'))
+    try:
+        hbad, hunsup, hn = absmodel.eval_visits(P, 'Table', fn['name'], 'hash')
+    except absmodel.Unsupported as x:
+        hbad, hunsup, hn = None, str(x), 0
+    if hunsup and not hbad:
+        ctx.undecided(rule, 'Table_Hash', site(fn), 'the hash leaves the evaluated fragment: ' + hunsup)
+    else:
+        ctx.check(hbad is None, rule, 'Table_Hash', site(fn), 'the value of an entry is found ksize + header bytes behind its key (evaluated: every key and value hashed once)', [hbad] if hbad else None)
     # the cursors, evaluated over slot memory laid out by the accessors: a wrong stride or hash-word offset reads an address that holds
     # no hash word, or yields the wrong sequence
     from . import absmodel
